@@ -4,6 +4,7 @@ import itertools
 from .. import common, gen, trees
 
 LEVEL = "proof"
+EXTRA_LEAN_MODULES = ["Luqum.Props.GenPropagate"]   # _propagate / _status_from_parent translated from the source (tools/pysym.py)
 RULE = ("trees named by auto_name (parsed and programmatic, no BoolOperation, no empty operation) x truth "
         "assignments to the terms (all assignments up to 6 terms, random beyond) x both default operations x the names "
         "of named operations (parenthesised operands) reported too when true, or not reported at all; the "
@@ -11,7 +12,7 @@ RULE = ("trees named by auto_name (parsed and programmatic, no BoolOperation, no
         "counted. non-trivial = at least one operation; distinct = distinct (tree, assignment, default)")
 ASSUMPTIONS = ["hypotheses of the property: no negation strictly between a named element and its term; besides: "
                "no BoolOperation and no operation without operands (the statement gives them no truth value)"]
-TRUSTED = ["lean/Luqum/Model/Naming.lean propagate (hand-written) + generated class tuples"]
+TRUSTED = ["lean/Luqum/Model/Naming.lean propagate (hand-written; proved equal to the code translated from the source: Props/GenPropagate) + generated class tuples"]
 
 TERMLIKE = ("Word", "Phrase", "Regex", "Range", "Fuzzy", "Proximity")
 NEG = ("Not", "Prohibit")
